@@ -9,7 +9,7 @@ REAL_NOTE = "Real-code layer: every accepted grammar of G(2,2,3,2)/sym (quick; t
 CHECKS = {
  "C07": ("E1+E4 totality sweep", "exploration",
          "bounded-exhaustive exploration of four input families through the real generate in child processes with a per-input watchdog, plus bound probes",
-         "No panic, abort or hang on: (a) every string of <=5 (quick) / <=7 (thorough) symbols over a 30-symbol alphabet (one representative per lexer character class and UTF-8 length); (b) every viable token-kind prefix of the Kiki grammar to depth 13 / 16 and every one-token extension, rendered to text; (c) every file of <=3 / <=4 items over the 204-item alphabet of C10 (all combinations of static violations); (d) every grammar of the C04 scopes (variant-less enums, no terminals, unreachable/unproductive nonterminals); (e) 25 bound probes at the stated bounds (2000 declarations, 64 KiB, nesting 256), each in its own process; (f) 8 growth series (generic nesting, nonterminal chains, precedence levels, attributes ...) run at sizes 4, 8, ... 64 in single-threaded children: a factor above 12 in CPU time between consecutive sizes is exponential growth and a violation (kiki's own n^5 construction stays below 2.5); also every naming of C05, the name-relation space, the scaled families and the large single-violation files of C10. A child that dies is re-run sequentially in trace mode to attribute the abort to an input.",
+         "No panic, abort or hang on: (a) every string of <=5 (quick) / <=7 (thorough) symbols over a 30-symbol alphabet (one representative per lexer character class and UTF-8 length); (b) every viable token-kind prefix of the Kiki grammar to depth 13 / 16 and every one-token extension, rendered to text; (c) every file of <=3 / <=4 items over the 210-item alphabet of C10 (all combinations of static violations); (d) every grammar of the C04 scopes (variant-less enums, no terminals, unreachable/unproductive nonterminals); (e) 25 bound probes at the stated bounds (2000 declarations, 64 KiB, nesting 256), each in its own process; (f) 8 growth series (generic nesting, nonterminal chains, precedence levels, attributes ...) run at sizes 4, 8, ... 64 in single-threaded children: a factor above 12 in CPU time between consecutive sizes is exponential growth and a violation (kiki's own n^5 construction stays below 2.5); also every naming of C05, the name-relation space, the scaled families and the large single-violation files of C10. A child that dies is re-run sequentially in trace mode to attribute the abort to an input.",
          "Between the small scopes and the bound probes the claim rests on the small-scope hypothesis; a probe that exceeds its time limit is inconclusive, never a violation (the automaton construction is polynomial of high degree).",
          "DESIGN.md section 3, C07"),
  "C08": ("E4 textsweep", "exploration",
@@ -24,7 +24,7 @@ CHECKS = {
          "DESIGN.md section 3, C09"),
  "C10": ("E4 textsweep", "exploration",
          "bounded-exhaustive exploration of all small files over an item alphabet; oracle: reference validator computing the set of all violations (membership)",
-         "Every file of <=3 (quick, 4.0e6 files) / <=4 (thorough, 6.3e8 files) items over a 204-item alphabet (start / terminal / struct / enum declarations over small name pools incl. other-namespace names, duplicates, wrong capitalisation, near-miss variant lists) plus the repository's should-fail corpus, every short identifier in 7 roles, the name-relation space, and large files (17 to 343 variants / nonterminals / terminals / fields) with one violation planted at every pair of boundary positions (3 278 files quick): Ok only if the violation set is empty; a validation error must be a member of the set with matching variant, name / symbol sequence and byte positions.",
+         "Every file of <=3 (quick, 4.0e6 files) / <=4 (thorough, 6.3e8 files) items over a 210-item alphabet (start / terminal / struct / enum declarations over small name pools incl. other-namespace names, duplicates, wrong capitalisation, near-miss variant lists) plus the repository's should-fail corpus, every short identifier in 7 roles, the name-relation space, and large files (17 to 343 variants / nonterminals / terminals / fields) with one violation planted at every pair of boundary positions (3 278 files quick): Ok only if the violation set is empty; a validation error must be a member of the set with matching variant, name / symbol sequence and byte positions.",
          "R-validate implements the catalogue of appendix C; TableConflict on a file with violations is not constrained by the statement.",
          "DESIGN.md section 3, C10"),
  "C12": ("E4 textsweep", "exploration",
